@@ -210,7 +210,7 @@ example :
 
 /-- **Provided values never become template variables — for the whole pipeline on the provider fragment.**  A page
 built from `{% provide %}` blocks (nested to any depth, in loops) around text, `{{ }}`, `{% if %}`, `{% for %}`,
-`{% with %}` and elements, whose expressions start from names Django accepts (no leading `_DJC_INJECT__`): the model
+`{% with %}` and elements, whose expressions start from names a template can use (Django refuses a leading `_`): the model
 of the code — which pushes the provider key as a context layer and keeps the payload in `provide_cache` — prints
 *exactly* what the reading of the property prints, where providers are a separate chain and touch no variable; and
 they fail alike.  All fuels, pages, contexts, worlds. -/
